@@ -416,3 +416,10 @@ def run(ck):
     rule_loop(ck)
     from .c13 import rule_occupant
     rule_occupant(ck, rid="C01.R7")
+    # events come out of the queue in (time, precedence) order only if the queue is a heap and is drained by popping (shared with C11)
+    from .c11 import rule_heap_discipline, rule_cut
+    rule_heap_discipline(ck, rid="C01.R2h")
+    rule_cut(ck, rid="C01.R2c")
+    # an event in a period makes the scheduler run in that period, so connected EVs keep receiving current (shared with C05)
+    from .c05 import rule_event_flags
+    rule_event_flags(ck, rid="C01.R8")
